@@ -36,7 +36,7 @@ def one(name, extra_checks):
     os.rmdir(wt)
     # apply to /repo HEAD if possible, else to the (older) commit the change was written against
     head = None
-    for base in ("HEAD", "5450e19", "22a8020"):
+    for base in ("HEAD", "8bb5fbf", "5450e19", "22a8020"):
         sh(["git", "-C", "/repo", "worktree", "add", "-q", "--detach", wt, base])
         if sh(["git", "-C", wt, "apply", "--check", os.path.join(d, "patch.diff")]).returncode == 0:
             head = sh(["git", "-C", wt, "rev-parse", "--short", "HEAD"]).stdout.strip()
